@@ -63,6 +63,10 @@ ASSUMPTIONS = [
     'they coincide for binary floating-point contexts without subnormal results; counter const-readings-differ). '
     'A result outside both readings is a violation.',
     'Overflow of a bounded context under RTO/RTE may give either the infinity(-substitute) or the largest value (as in C01).',
+    'Non-dyadic rational operands (e.g. the exact value 1/10 of the literal 0.1) are at present refused by every transcendental function with '
+    'NotImplementedError (MPFREngine declines Fraction arguments, RealEngine has no transcendental functions). A loud refusal is treated as '
+    '"not offered", not as a wrong value: it is a counted, non-failing probe (counter nondyadic-operand-refused). A non-dyadic operand that is '
+    'accepted is checked like any other operand (monotone unary functions by enclosing the operand; pow with an integer exponent exactly).',
     'Operands are finite and inside the real domain with a finite real result; poles, out-of-domain operands, infinities and NaN are not generated. '
     'atan2 with both operands zero and pow(0, 0) are treated as outside the domain.',
 ]
@@ -269,6 +273,27 @@ class SqrtTruth:
         return self.cache[w]
 
 
+class RatTruth:
+    """f(q) for a non-dyadic rational q and a function monotone around q: q is enclosed by dyadic numbers."""
+    is_const = False
+    MONOTONE = tuple(f for f in E.UNARY if f not in ('sin', 'cos', 'tan', 'tgamma', 'lgamma'))
+
+    def __init__(self, fname, q):
+        self.name, self.q, self.cache, self.exact = fname, q, {}, None
+
+    def enc(self, w):
+        if w not in self.cache:
+            xl, xh = _round_bits(self.q, w + 32, False), _round_bits(self.q, w + 32, True)
+            a = E.enclose(self.name, (E.to_mpfr(xl),), w)
+            b = E.enclose(self.name, (E.to_mpfr(xh),), w)
+            self.cache[w] = (min(a[0], b[0]), max(a[1], b[1]))
+        return self.cache[w]
+
+
+NONDYADIC_REFUSAL_IS_FAILURE = False
+NONDYADIC = (Fraction(1, 10), Fraction(1, 3), Fraction(-2, 3), Fraction(7, 5), Fraction(22, 7))
+
+
 def path_of(m: Model, e_y):
     if m.kind == 'exp':
         return 'exp'
@@ -407,6 +432,10 @@ _EXC = (ValueError, OverflowError, TypeError, ZeroDivisionError, ArithmeticError
 def operand_obj(d, carrier='Float'):
     if carrier == 'Float':
         return to_float_obj(d)
+    if carrier == 'Float*8':
+        # redundant encoding of the same value (zeros: a zero with a non-zero exponent)
+        x = to_float_obj(d)
+        return Float(s=x.s, c=x.c << 3, exp=x.exp - 3)
     q = _dn(d)
     if carrier == 'int':
         return int(q)
@@ -540,6 +569,8 @@ def check_group(res: Result, f, truth, ident, classes=(), modes=MODES, alt=None)
 # layer: functions x MPFloat
 
 def mp_precisions(tier):
+    if tier == 'thorough':
+        return list(range(1, 97)) + list(BIG_P) + [500, 800]
     return list(range(1, 65)) + list(BIG_P)
 
 
@@ -826,10 +857,73 @@ def run_misc(res, fname, tier):
         for dens in ops[::2] if tier != 'thorough' else ops:
             t = Truth(fname, dens)
             check_group(res, f, t, ident_fn(fname, dens), classes=('layer:misc',))
+    # non-dyadic rational operands (decimal literals are exact rationals in FPy): at present refused with NotImplementedError
+    if fname in UN:
+        for q in NONDYADIC:
+            if not E.in_domain(fname, (q,)):
+                continue
+            for f in (fmt('mp', 11), fmt('ieee', 11, 64, overflow='OVERFLOW'), fmt('mpfixed', -20)):
+                ctx, m = ctx_for(*f, 'RNE')
+                try:
+                    r = getattr(fp.ops, fname)(q, ctx=ctx)
+                except NotImplementedError:
+                    res.count('nondyadic-operand-refused')
+                    if NONDYADIC_REFUSAL_IS_FAILURE:
+                        res.case()
+                        res.fail('fn/non-dyadic-operand/raised NotImplementedError',
+                                 {'fn': fname, 'args': [show(q)], 'carrier': 'Fraction', 'ctx': label_of(f, 'RNE')},
+                                 expected='a rounded result', got='raised NotImplementedError')
+                    continue
+                res.count('nondyadic-operand-accepted')
+                if fname in RatTruth.MONOTONE:
+                    d, info = decide_modes(RatTruth(fname, q), {'RNE': m})
+                    o = d.get('RNE')
+                    if o is None:
+                        res.skip('undecided')
+                        continue
+                    res.case()
+                    res.cls('nondyadic')
+                    gd = den(r) if isinstance(r, Float) else repr(r)
+                    if gd not in o.values:
+                        res.fail('fn/non-dyadic-operand/wrong value',
+                                 {'fn': fname, 'args': [show(q)], 'carrier': 'Fraction', 'ctx': label_of(f, 'RNE')},
+                                 expected={'values': sorted(show(v) for v in o.values)}, got=show(gd))
+    if fname == 'pow':
+        for q in NONDYADIC:
+            for y in (Fraction(2), Fraction(-1), Fraction(3), Fraction(1, 2), Fraction(-3, 4)):
+                if not E.in_domain('pow', (q, y)):
+                    continue
+                for f in (fmt('mp', 11), fmt('ieee', 11, 64, overflow='OVERFLOW'), fmt('mpfixed', -20)):
+                    ctx, m = ctx_for(*f, 'RNE')
+                    try:
+                        r = fp.ops.pow(q, y, ctx=ctx)
+                    except NotImplementedError:
+                        res.count('nondyadic-operand-refused')
+                        continue
+                    res.count('nondyadic-operand-accepted')
+                    if y.denominator != 1:
+                        res.skip('non-dyadic pow with fractional exponent accepted: no oracle')
+                        continue
+                    o = expect(m, q ** int(y))
+                    res.case()
+                    res.cls('nondyadic')
+                    gd = den(r) if isinstance(r, Float) else repr(r)
+                    if gd not in o.values or (o.inexact is False and r.inexact is not False):
+                        res.fail('fn/non-dyadic-operand/wrong value',
+                                 {'fn': 'pow', 'args': [show(q), show(y)], 'carrier': 'Fraction', 'ctx': label_of(f, 'RNE')},
+                                 expected={'values': sorted(show(v) for v in o.values), 'inexact': o.inexact}, got=show(gd))
+    if fname == 'atan2':
+        for q in NONDYADIC:
+            ctx, m = ctx_for(*fmt('mp', 11), 'RNE')
+            try:
+                fp.ops.atan2(q, Fraction(1), ctx=ctx)
+                res.skip('non-dyadic atan2 accepted: no oracle')
+            except NotImplementedError:
+                res.count('nondyadic-operand-refused')
     # carriers: the same operands given as int / float / dyadic Fraction
     for dens in ops:
         qs = [_dn(d) for d in dens]
-        for carrier in ('int', 'float', 'Fraction'):
+        for carrier in ('int', 'float', 'Fraction', 'Float*8'):
             if carrier == 'int' and not all(q.denominator == 1 for q in qs):
                 continue
             if carrier == 'float':
@@ -1133,6 +1227,20 @@ def replay(case):
     else:
         dens = tuple(_unshow(a) for a in case['args'])
         carrier = case.get('carrier', 'Float')
+        if len(dens) == 1 and isinstance(dens[0], Fraction) and not E.is_dyadic(dens[0]):
+            ctx, m = ctx_for(*f, mode)
+            try:
+                r = getattr(fp.ops, case['fn'])(dens[0], ctx=ctx)
+            except NotImplementedError:
+                if NONDYADIC_REFUSAL_IS_FAILURE:
+                    res.fail('fn/non-dyadic-operand/raised NotImplementedError', case, 'a rounded result', 'raised NotImplementedError')
+                return [x for fl in res.failures.values() for x in fl]
+            if case['fn'] in RatTruth.MONOTONE:
+                d, _ = decide_modes(RatTruth(case['fn'], dens[0]), {mode: m})
+                o = d.get(mode)
+                if o is not None and (den(r) if isinstance(r, Float) else None) not in o.values:
+                    res.fail('fn/non-dyadic-operand/wrong value', case, sorted(show(v) for v in o.values), repr(r))
+            return [x for fl in res.failures.values() for x in fl]
         tdens = tuple(PZERO if (d == NZERO and carrier in ('int', 'Fraction')) else d for d in dens)
         check_group(res, f, Truth(case['fn'], tdens), ident_fn(case['fn'], dens, carrier), modes=(mode,))
     return [x for fl in res.failures.values() for x in fl]
